@@ -139,6 +139,13 @@ def excel_rows(source_path, sheet=1):
         raise errors.DataFormatError("cannot read Excel file: %s" % error, location)
     except UnicodeError as error:
         raise errors.DataFormatError("cannot decode Excel data: %s" % error, location)
+    except OSError:
+        # Missing or unreadable files are an environment issue, not broken data.
+        raise
+    except Exception as error:
+        # Broken archives and workbooks surface as various library specific errors,
+        # for example zipfile.BadZipFile, zlib.error, KeyError or struct.error.
+        raise errors.DataFormatError("cannot read Excel file: %s" % error, location)
 
 
 def _raise_delimited_data_format_error(delimited_path, reader, error):
